@@ -521,6 +521,7 @@ structure Closed (P : Store → Prop) : Prop where
 /-- relational / graph / vector / raw statements (everything but checkpoint control) -/
 def Op.isData : Op → Bool
   | .ckpt _ _ _ => false
+  | .ackpt _ _ _ => false
   | .rollback _ _ => false
   | .ckdel _ _ => false
   | .setmax _ => false
@@ -767,6 +768,7 @@ theorem Closed.step (d : Db) (op : Op) (hd : op.isData = true)
   | kput c k x e => exact hP.kPut d c k x e h
   | kdel c k => exact hP.kDel d c k h
   | ckpt ts ord nm => simp [Op.isData] at hd
+  | ackpt ts ord nm => simp [Op.isData] at hd
   | rollback i o => simp [Op.isData] at hd
   | ckdel i o => simp [Op.isData] at hd
   | setmax n => simp [Op.isData] at hd
@@ -937,6 +939,7 @@ theorem step_frame (d : Db) (op : Op) (hd : op.isData = true) :
   | kput c k x e => simp only [step]; unfold kPut; frame_tac
   | kdel c k => simp only [step]; unfold kDel; frame_tac
   | ckpt ts ord nm => simp [Op.isData] at hd
+  | ackpt ts ord nm => simp [Op.isData] at hd
   | rollback i o => simp [Op.isData] at hd
   | ckdel i o => simp [Op.isData] at hd
   | setmax n => simp [Op.isData] at hd
@@ -1233,6 +1236,79 @@ theorem enforce_sublist (max : Nat) (ord : List Nat) (L : List (Nat × Nat)) :
   · exact List.Sublist.refl _
   · exact List.filter_sublist
 
+/-- both creation paths (`create`, `create_auto`: store the record, then enforce retention) keep
+    the database invariant -/
+theorem DbInv.doCkpt {d : Db} (h : DbInv d) (ts : Nat) (ord : List Nat) (nm : Nat) :
+    DbInv (doCkpt d ts ord nm).1 := by
+  simp only [Neumann.Ckpt.doCkpt]
+  have hfresh : d.nextCk ∉ d.st.cps.map (·.1) := by
+    intro hm
+    have := h.cpsLt _ ((alHas_iff _ _).mpr hm); omega
+  have hnd : ((d.st.cps ++ [(d.nextCk, ts)]).map (·.1)).Nodup := by
+    rw [List.map_append]
+    refine List.nodup_append.mpr ⟨h.cpsNodup, by simp, ?_⟩
+    intro a ha b hb
+    simp only [List.map_cons, List.map_nil, List.mem_singleton] at hb
+    subst hb
+    intro e; subst e; exact hfresh ha
+  have hnoid : ∀ c ∈ d.arch, c.id ≠ d.nextCk := by
+    intro c hc e
+    have : c.id ∈ d.arch.map (·.id) := List.mem_map_of_mem hc
+    rw [h.ids, List.mem_range] at this; omega
+  refine ⟨h.wf.setCps _, ?_, ?_, ?_, ?_, ?_, ?_, ?_, ?_⟩
+  · intro c hc
+    rcases List.mem_append.mp hc with hc | hc
+    · exact h.arch c hc
+    · simp only [List.mem_singleton] at hc; subst hc; exact h.wf
+  · simp only [List.map_append, List.map_cons, List.map_nil, h.ids, List.range_succ]
+  · intro i hi
+    dsimp only at hi ⊢
+    rw [alHas_iff] at hi
+    obtain ⟨p, hp, rfl⟩ := List.mem_map.mp hi
+    have hp' := enforce_subset _ _ _ p hp
+    rcases List.mem_append.mp hp' with hp' | hp'
+    · have := h.cpsLt p.1 ((alHas_iff _ _).mpr (List.mem_map_of_mem hp')); omega
+    · simp only [List.mem_singleton] at hp'; subst hp'; exact Nat.lt_succ_self _
+  · intro c hc i hi
+    dsimp only at hc ⊢
+    rcases List.mem_append.mp hc with hc | hc
+    · have := h.archCps c hc i hi; omega
+    · simp only [List.mem_singleton] at hc; subst hc
+      have := h.cpsLt i hi; omega
+  · exact List.Nodup.sublist ((enforce_sublist _ _ _).map _) hnd
+  · intro c hc
+    dsimp only at hc
+    rcases List.mem_append.mp hc with hc | hc
+    · exact h.archNodup c hc
+    · simp only [List.mem_singleton] at hc; subst hc; exact h.cpsNodup
+  · intro p hp c hc hid
+    dsimp only at hp hc
+    have hp' := enforce_subset _ _ _ p hp
+    rcases List.mem_append.mp hp' with hp' | hp' <;> rcases List.mem_append.mp hc with hc | hc
+    · exact h.cpsTs p hp' c hc hid
+    · simp only [List.mem_singleton] at hc; subst hc
+      have hm : p.1 ∈ d.st.cps.map (·.1) := List.mem_map_of_mem hp'
+      simp only at hid
+      rw [← hid] at hm
+      exact absurd hm hfresh
+    · simp only [List.mem_singleton] at hp'; subst hp'
+      exact absurd hid (hnoid c hc)
+    · simp only [List.mem_singleton] at hp' hc; subst hp'; subst hc; rfl
+  · intro c' hc' p hp c hc hid
+    dsimp only at hc' hc
+    have hplt : p.1 < d.nextCk := by
+      rcases List.mem_append.mp hc' with hc' | hc'
+      · exact h.archCps c' hc' p.1 ((alHas_iff _ _).mpr (List.mem_map_of_mem hp))
+      · simp only [List.mem_singleton] at hc'; subst hc'
+        exact h.cpsLt p.1 ((alHas_iff _ _).mpr (List.mem_map_of_mem hp))
+    rcases List.mem_append.mp hc with hc | hc
+    · rcases List.mem_append.mp hc' with hc' | hc'
+      · exact h.archTs c' hc' p hp c hc hid
+      · simp only [List.mem_singleton] at hc'; subst hc'
+        exact h.cpsTs p hp c hc hid
+    · simp only [List.mem_singleton] at hc; subst hc
+      simp only at hid; omega
+
 theorem DbInv.step {d : Db} (h : DbInv d) (op : Op) : DbInv (step d op).1 := by
   by_cases hd : op.isData = true
   · have hf := step_frame d op hd
@@ -1242,75 +1318,8 @@ theorem DbInv.step {d : Db} (h : DbInv d) (op : Op) : DbInv (step d op).1 := by
       by rw [hc]; exact h.cpsNodup, by rw [hf.1]; exact h.archNodup,
       by rw [hc, hf.1]; exact h.cpsTs, by rw [hf.1]; exact h.archTs⟩
   · cases op with
-    | ckpt ts ord nm =>
-      simp only [Neumann.Ckpt.step, doCkpt]
-      have hfresh : d.nextCk ∉ d.st.cps.map (·.1) := by
-        intro hm
-        have := h.cpsLt _ ((alHas_iff _ _).mpr hm); omega
-      have hnd : ((d.st.cps ++ [(d.nextCk, ts)]).map (·.1)).Nodup := by
-        rw [List.map_append]
-        refine List.nodup_append.mpr ⟨h.cpsNodup, by simp, ?_⟩
-        intro a ha b hb
-        simp only [List.map_cons, List.map_nil, List.mem_singleton] at hb
-        subst hb
-        intro e; subst e; exact hfresh ha
-      have hnoid : ∀ c ∈ d.arch, c.id ≠ d.nextCk := by
-        intro c hc e
-        have : c.id ∈ d.arch.map (·.id) := List.mem_map_of_mem hc
-        rw [h.ids, List.mem_range] at this; omega
-      refine ⟨h.wf.setCps _, ?_, ?_, ?_, ?_, ?_, ?_, ?_, ?_⟩
-      · intro c hc
-        rcases List.mem_append.mp hc with hc | hc
-        · exact h.arch c hc
-        · simp only [List.mem_singleton] at hc; subst hc; exact h.wf
-      · simp only [List.map_append, List.map_cons, List.map_nil, h.ids, List.range_succ]
-      · intro i hi
-        dsimp only at hi ⊢
-        rw [alHas_iff] at hi
-        obtain ⟨p, hp, rfl⟩ := List.mem_map.mp hi
-        have hp' := enforce_subset _ _ _ p hp
-        rcases List.mem_append.mp hp' with hp' | hp'
-        · have := h.cpsLt p.1 ((alHas_iff _ _).mpr (List.mem_map_of_mem hp')); omega
-        · simp only [List.mem_singleton] at hp'; subst hp'; exact Nat.lt_succ_self _
-      · intro c hc i hi
-        dsimp only at hc ⊢
-        rcases List.mem_append.mp hc with hc | hc
-        · have := h.archCps c hc i hi; omega
-        · simp only [List.mem_singleton] at hc; subst hc
-          have := h.cpsLt i hi; omega
-      · exact List.Nodup.sublist ((enforce_sublist _ _ _).map _) hnd
-      · intro c hc
-        dsimp only at hc
-        rcases List.mem_append.mp hc with hc | hc
-        · exact h.archNodup c hc
-        · simp only [List.mem_singleton] at hc; subst hc; exact h.cpsNodup
-      · intro p hp c hc hid
-        dsimp only at hp hc
-        have hp' := enforce_subset _ _ _ p hp
-        rcases List.mem_append.mp hp' with hp' | hp' <;> rcases List.mem_append.mp hc with hc | hc
-        · exact h.cpsTs p hp' c hc hid
-        · simp only [List.mem_singleton] at hc; subst hc
-          have hm : p.1 ∈ d.st.cps.map (·.1) := List.mem_map_of_mem hp'
-          simp only at hid
-          rw [← hid] at hm
-          exact absurd hm hfresh
-        · simp only [List.mem_singleton] at hp'; subst hp'
-          exact absurd hid (hnoid c hc)
-        · simp only [List.mem_singleton] at hp' hc; subst hp'; subst hc; rfl
-      · intro c' hc' p hp c hc hid
-        dsimp only at hc' hc
-        have hplt : p.1 < d.nextCk := by
-          rcases List.mem_append.mp hc' with hc' | hc'
-          · exact h.archCps c' hc' p.1 ((alHas_iff _ _).mpr (List.mem_map_of_mem hp))
-          · simp only [List.mem_singleton] at hc'; subst hc'
-            exact h.cpsLt p.1 ((alHas_iff _ _).mpr (List.mem_map_of_mem hp))
-        rcases List.mem_append.mp hc with hc | hc
-        · rcases List.mem_append.mp hc' with hc' | hc'
-          · exact h.archTs c' hc' p hp c hc hid
-          · simp only [List.mem_singleton] at hc'; subst hc'
-            exact h.cpsTs p hp c hc hid
-        · simp only [List.mem_singleton] at hc; subst hc
-          simp only at hid; omega
+    | ckpt ts ord nm => exact h.doCkpt ts ord nm
+    | ackpt ts ord nm => exact h.doCkpt ts ord nm
     | rollback x o =>
       simp only [Neumann.Ckpt.step, doRollback]
       cases hl : loadCk d o x with
@@ -1349,6 +1358,7 @@ theorem step_arch_prefix (d : Db) (op : Op) : ∃ ext, (step d op).1.arch = d.ar
   · exact ⟨[], by rw [(step_frame d op hd).1]; simp⟩
   · cases op with
     | ckpt ts ord nm => exact ⟨_, rfl⟩
+    | ackpt ts ord nm => exact ⟨_, rfl⟩
     | rollback i o =>
       refine ⟨[], ?_⟩
       simp only [Neumann.Ckpt.step, doRollback]
